@@ -39,6 +39,10 @@ CHECKS = {
    text="TLC checks on HedRewrite.tla that the verdict of HedRules.tla is invariant under exchanging sibling leaves and exchanging a leaf with a sibling group for every tree <= 4 nodes (respelling/respacing are identity on the model); every tree TLC enumerates (<= 3 nodes quick / <= 4 thorough, valid and invalid), deep simulated trees <= 6 nodes and simulated trees <= 9 nodes containing a duplicated non-trivial group (DupSubtree action) are rendered per bundled schema as base + 11 rewrites (2 respellings, lower/upper/mixed case, blank padding, 3 sibling reorderings at every level, combined) and the real validator must return the same multiset of error codes for all, and TAG_EXPRESSION_REPEATED for every rendering of a duplicated group",
    note="bounded tree size; values/units kept verbatim; quick validates a rotating quarter of (tree, schema) pairs",
    technique="TLA+ spec + TLC model checking (parameterised INSTANCE); metamorphic replay of TLC-generated trees"),
+ "C13": dict(
+   text="TLC computes on Namespaces.tla the accept/refuse verdict of every version list (<= 2 entries quick, <= 3 thorough) over 7 partnered versions x 4 prefixes from facts read out of the XML files (withStandard, library-specific tag names) and checks RefuseTwice/RefuseClash/DispatchTotal; load_schema_version is replayed on each list (accept vs documented HedFileError, prefixes answered). Annotation trees from HedRules.tla (exhaustive <= 3 nodes + deep simulated) are validated prefixed against 5 schema groups and unprefixed against the prefix's schema alone - error multisets must agree for every prefix incl. the empty one; unknown / non-alphabetic prefixes must yield TAG_NAMESPACE_PREFIX_INVALID; every partnered library is compared tag by tag with its standard partner (independent XML reader)",
+   note="unknown version numbers are not enumerated (network); bounded list length and tree size",
+   technique="TLA+ spec + TLC decision table; differential replay of TLC-generated annotations"),
 }
 ALL = ["C%02d" % i for i in range(1, 21)]
 m = {
